@@ -21,9 +21,12 @@ partial def ovsdbImports (env : Environment) (m : Name) (acc : Std.HashSet Name)
       if (`Ovsdb).isPrefixOf i.module then ovsdbImports env i.module acc else acc) acc
 
 /-- axioms reachable from a constant: plain DFS over used constants with a
-    visited set (fresh per audited theorem, so no partial results are cached) -/
-partial def axiomsOf (env : Environment) (c : Name) : StateM (NameSet × NameSet) Unit := do
-  if (← get).1.contains c then return
+    visited set (fresh per audited theorem, so no partial results are cached).
+    `clean` holds constants already known to reach allowed axioms only; they are
+    not re-explored (then the reported list may omit allowed axioms, never a
+    disallowed one). -/
+partial def axiomsOf (env : Environment) (clean : NameSet) (c : Name) : StateM (NameSet × NameSet) Unit := do
+  if (← get).1.contains c || clean.contains c then return
   modify fun s => (s.1.insert c, s.2)
   let exprs : List Expr := match env.find? c with
     | some (.axiomInfo v)  => [v.type]
@@ -37,7 +40,7 @@ partial def axiomsOf (env : Environment) (c : Name) : StateM (NameSet × NameSet
   if let some (.axiomInfo _) := env.find? c then modify fun s => (s.1, s.2.insert c)
   for e in exprs do
     for d in e.getUsedConstants do
-      axiomsOf env d
+      axiomsOf env clean d
 
 def main (args : List String) : IO UInt32 := do
   initSearchPath (← findSysroot)
@@ -48,6 +51,7 @@ def main (args : List String) : IO UInt32 := do
     todo := ovsdbImports env m todo
   let mut bad := 0
   let mut count := 0
+  let mut clean : NameSet := {}
   for m in todo.toList do
     let some idx := env.getModuleIdx? m | continue
     let names := (env.header.moduleData[idx.toNat]!).constNames
@@ -55,8 +59,13 @@ def main (args : List String) : IO UInt32 := do
       if n.isInternal then continue
       match env.find? n with
       | some (.thmInfo _) =>
-        let (_, st) := (axiomsOf env n).run ({}, {})
+        -- property theorems (Ovsdb.Theorems.*) get a full exploration so that their exact
+        -- axiom list is reported; helper lemmas reuse the set of constants known clean
+        let full := (`Ovsdb.Theorems).isPrefixOf m
+        let (_, st) := (axiomsOf env (if full then {} else clean) n).run ({}, {})
         let axs := st.2.toList
+        if axs.all (fun a => allowed.contains a) then
+          clean := st.1.foldl (fun acc x => acc.insert x) clean
         count := count + 1
         let extra := axs.filter (fun a => !allowed.contains a)
         if !extra.isEmpty then
